@@ -141,10 +141,10 @@ fn import(input: Input<'_>) -> ParserResult<'_, Import> {
             skip_ws_and_comments(tag(FROM)),
             skip_ws_and_comments(pair(
                 global_module_reference,
-                opt(into_inner(skip_ws_and_comments(alt((
-                    tag(WITH_SUCCESSORS),
-                    tag(WITH_DESCENDANTS),
-                ))))),
+                opt(skip_ws_and_comments(alt((
+                    value(WITH_SUCCESSORS, keyword(WITH_SUCCESSORS)),
+                    value(WITH_DESCENDANTS, keyword(WITH_DESCENDANTS)),
+                )))),
             )),
         ),
     )))
